@@ -2,21 +2,26 @@ SPEC = {
     "id": "C06",
     "components": [
         {"comp": "flow_recv", "module": "QV.Model.FlowRecv", "quick": 1500, "thorough": 40000},
+        {"comp": "datagrams", "module": "QV.Model.DatagramState", "quick": 500, "thorough": 10000},
         {"comp": "sim_c06h", "module": "QV.Sys.MonC03", "quick": 112, "thorough": 3000, "pymod": "sim_c03h"},
     ],
     "assumptions": [
         "stream data is modelled by offsets and lengths (contents: C01); reads are observed as the number of bytes returned by a Chunks::next loop with a byte budget, so chunk boundaries are not observed",
-        "Assembler over-allocation defragmentation and the chunk-count cap are not modelled (cases keep every stream below the 32 KiB threshold); DatagramState.received and CRYPTO buffer limits belong to other checks",
+        "Assembler over-allocation defragmentation and the chunk-count cap are not modelled (cases keep every stream below the 32 KiB threshold); CRYPTO buffer limits belong to other checks (sim_c06h); DatagramState.received is covered by the `datagrams` component shared with C16",
         "set_max_concurrent is not exercised: max_concurrent_remote_count stays at its initial value",
         "send-side flow control limits are set large (2^30 per stream, 2^40 per connection) and never bind",
     ],
 }
 
 MANIFEST = {
-    "text": ("Receive-side enforcement of StreamsState/Recv/Chunks (stream and connection flow control, stream-count limit, "
+    "text": ("Unread DATAGRAM payloads never exceed datagram_receive_buffer_size: an accepted datagram evicts the oldest ones, as many as "
+             "needed, an oversized one is refused (C06_datagram_buffer_bounded, C06_oversized_datagram_refused on Model/DatagramState.v, "
+             "`datagrams` correspondence). Receive-side enforcement of StreamsState/Recv/Chunks (stream and connection flow control, stream-count limit, "
              "final-size consistency, credit issuance, stream credit on termination) is modelled in Coq (Model/FlowRecv.v) and the "
-             "C06 theorems are proved for all op sequences (frames interleaved with reads, stops, resets, window changes) by "
-             "induction over the sequence. The model is tied to the Rust code on every run by differential correspondence through the "
+             "C06 theorems over_limit_rejected (per frame, all states) and accounting_exact (all op sequences: frames interleaved with "
+             "ordered/unordered reads, stops, resets, window changes, control frames; includes the assembler invariant bytes_read <= end) "
+             "are proved by induction over the sequence; buffered_bounded, credit_only_for_consumed and stream_credit_only_when_terminal "
+             "are stated in full and enforced by the oracle only. The model is tied to the Rust code on every run by differential correspondence through the "
              "flow_recv hook (all probes compared verbatim) and by an independent ledger oracle evaluated on the implementation's outputs. "
              "Three defects were found by the faithful model and are repaired by fix: commits (double credit for stopped+reset streams, "
              "FIN below the high-water mark accepted, F2 stream dropped on IllegalOrderedRead); their witnesses are kept as _refuted "
